@@ -2,6 +2,7 @@ package props
 
 import (
 	"bytes"
+	"context"
 	"fmt"
 	"os"
 	"os/exec"
@@ -32,7 +33,9 @@ type cliRun struct {
 }
 
 func runCli(acv string, args ...string) cliRun {
-	cmd := exec.Command(acv, args...)
+	ctx, cancel := context.WithTimeout(context.Background(), 120*time.Second)
+	defer cancel()
+	cmd := exec.CommandContext(ctx, acv, args...)
 	var out, errb bytes.Buffer
 	cmd.Stdout = &out
 	cmd.Stderr = &errb
@@ -50,7 +53,9 @@ func runCli(acv string, args ...string) cliRun {
 
 // runCliStdin: the same with a pipe as standard input (the text is written and the pipe closed).
 func runCliStdin(acv string, stdin string, args ...string) cliRun {
-	cmd := exec.Command(acv, args...)
+	ctx, cancel := context.WithTimeout(context.Background(), 120*time.Second)
+	defer cancel()
+	cmd := exec.CommandContext(ctx, acv, args...)
 	var out, errb bytes.Buffer
 	cmd.Stdout = &out
 	cmd.Stderr = &errb
@@ -74,7 +79,7 @@ func feedFifo(path, text string) error {
 		return err
 	}
 	go func() {
-		deadline := time.Now().Add(10 * time.Second)
+		deadline := time.Now().Add(60 * time.Second)
 		for time.Now().Before(deadline) {
 			f, err := os.OpenFile(path, os.O_WRONLY|syscall.O_NONBLOCK, 0)
 			if err == nil {
